@@ -4,28 +4,32 @@
 EXTENDS Fractal, Json
 CONSTANT GenLen
 VARIABLE hist
-GHome == [c \in Leaves |-> IF c \in {"c1", "c2"} THEN "S" ELSE IF c \in {"c3", "c4"} THEN "r1" ELSE "r2"]
+GHome == [c \in Leaves |-> IF c \in {"c1", "c2", "l1"} THEN "S" ELSE IF c \in {"c3", "c4", "l2"} THEN "r1" ELSE "r2"]
 RS(X) == RandomElement(IF Len(hist) >= 0 THEN X ELSE {})
 Log(r, x) == hist' = Append(hist, r) /\ R' = x
 GInit == Init /\ hist = <<>>
 AddedT == {t \in TaskIds : R.tasks[t] # NoTask}
 Fresh == {t \in TaskIds : R.tasks[t] = NoTask}
-Reachable == {c \in Leaves : CanReport(R, c)}
+Pending == {t \in AddedT : Unread(R, t) > 0}
+Reachable == {c \in Leaves \ Auto : CanReport(R, c)}
 \* reports: mostly to added tasks, now and then to one that does not exist (yet); bursts of up to three
 Bursts == {<<a>> : a \in Payloads} \cup {<<a, b>> : a \in Payloads, b \in Payloads} \cup {<<a, b, c>> : a \in Payloads, b \in Payloads, c \in Payloads}
 RECURSIVE ReportAll(_, _, _, _)
 ReportAll(x, c, t, ps) == IF ps = <<>> THEN x ELSE ReportAll(Report(x, c, t, Head(ps)), c, t, Tail(ps))
 Room(t) == IF Accepts(R, t) THEN QCap - Unread(R, t) ELSE 3
 GNext ==
-  \/ \E i \in 1..3 : \E c \in {RS(Leaves)} : CanSubscribe(R, c) /\ Log([a |-> "Subscribe", c |-> c], Subscribe(R, c))
+  \* a LocalCollector (Auto leaf) subscribes once per life; scripted collectors may be subscribed again
+  \/ \E i \in 1..3 : \E c \in {RS(Leaves)} : CanSubscribe(R, c) /\ (c \in Auto => ~Subscribed(R, c)) /\ Log([a |-> "Subscribe", c |-> c], Subscribe(R, c))
   \/ \E c \in {RS(Leaves)} : CanSubscribe(R, c) /\ Log([a |-> "Unsubscribe", c |-> c], Unsubscribe(R, c))
   \/ \E i \in 1..2 : \E r \in {RS(Relays)} : CanConnect(R, r) /\ Log([a |-> "Connect", r |-> r], Connect(R, r))
   \/ \E r \in {RS(Relays)} : R.conn[r] /\ Log([a |-> "Disconnect", r |-> r], Disconnect(R, r))
   \/ \E i \in 1..2 : Fresh # {} /\ \E t \in {RS(Fresh)} : Log([a |-> "AddB", t |-> t], AddBroadcast(R, t))
-  \/ \E i \in 1..2 : Fresh # {} /\ \E t \in {RS(Fresh)}, tg \in {RS(Sources)} : Log([a |-> "AddT", t |-> t, tg |-> tg], AddTarget(R, t, tg))
+  \* targeted tasks: half of them at a node that has (or may have) a LocalCollector, which answers on its own
+  \/ \E i \in 1..2 : Fresh # {} /\ \E t \in {RS(Fresh)}, tg \in {RS(IF RS(1..2) = 1 THEN {Src(c) : c \in Auto} ELSE Sources)} :
+        Log([a |-> "AddT", t |-> t, tg |-> tg], AddTarget(R, t, tg))
   \/ \E i \in 1..5 : Reachable # {} /\ \E c \in {RS(Reachable)}, t \in {RS(IF AddedT # {} /\ RS(1..6) > 1 THEN AddedT ELSE TaskIds)}, ps \in {RS(Bursts)} :
         Len(ps) <= Room(t) /\ Log([a |-> "Report", c |-> c, t |-> t, ps |-> ps], ReportAll(R, c, t, ps))
-  \/ \E i \in 1..3 : AddedT # {} /\ \E t \in {RS(AddedT)} :
+  \/ \E i \in 1..3 : AddedT # {} /\ \E t \in {RS(IF Pending # {} /\ RS(1..4) > 1 THEN Pending ELSE AddedT)} :
         LET ss == {s \in Sources : CanTake(R, t, s)} IN
         IF ss = {} THEN Log([a |-> "Take", t |-> t], R) ELSE \E s \in ss : Log([a |-> "Take", t |-> t], Take(R, t, s))
   \/ AddedT # {} /\ \E t \in {RS(AddedT)} : Log([a |-> "Remove", t |-> t], RemoveTask(R, t))
